@@ -381,6 +381,9 @@ Deliver(b) ==
   /\ UNCHANGED <<nin, peerClosed, rdbuf, rdpc, inq, work, dpc, dbatch, nbar, calls, callID, cb, cbw, npush,
                  ch, err, sendOK, wsret, gen, ncancel>>
 
+\* the same action named by the first member of the batch (what the harness can key on)
+DeliverS(s) == \E b \in 1..Len(bat) : bat[b].mem[1] = s /\ Deliver(b)
+
 (***************************************************************************)
 (* CancelRequest.                                                          *)
 (***************************************************************************)
@@ -468,27 +471,37 @@ Restart ==    \* Start(freshChannel) after WaitStatus returned
                  ncancel, crashed, out>>
 
 (***************************************************************************)
+\* constant index spaces, so that TLC names each step after its action and arguments
+SrcSpace == (1..MaxIn) \X (1..3)
+CbIdSpace == 1..(MaxPush + 1)
+
 Next ==
   \/ \E m \in Pool : PeerSend(m)
-  \/ PeerClose \/ RecvError \/ SendFails
-  \/ RdProcess \/ RdFail
-  \/ DpLock \/ DpBarrier
-  \/ \E s \in Srcs : WkAcquire(s)
-  \/ \E s \in Srcs : \E o \in Outcomes : HReturn(s, o)
-  \/ \E b \in 1..Len(bat) : Deliver(b)
+  \/ PeerClose
+  \/ RecvError
+  \/ SendFails
+  \/ RdProcess
+  \/ RdFail
+  \/ DpLock
+  \/ DpBarrier
+  \/ \E s \in SrcSpace : WkAcquire(s)
+  \/ \E s \in SrcSpace : \E o \in Outcomes : HReturn(s, o)
+  \/ \E s \in SrcSpace : DeliverS(s)
   \/ Stop
   \/ \E id \in Ids : CancelRequest(id)
   \/ PushNotify
-  \/ \E c \in Callers : PushCall(c) \/ CbCtxEnd(c)
-  \/ \E id \in DOMAIN cbw : CbTimeout(id)
-  \/ WaitStatusReturn \/ Restart
+  \/ \E c \in Callers : PushCall(c)
+  \/ \E c \in Callers : CbCtxEnd(c)
+  \/ \E id \in CbIdSpace : CbTimeout(id)
+  \/ WaitStatusReturn
+  \/ Restart
 
 Spec == Init /\ [][Next]_vars
 
 \* Fairness for the liveness half of C08: internal steps and handler returns are
 \* eventually taken (handlers return once released; the harness always releases).
 Internal == RdProcess \/ RdFail \/ DpLock \/ DpBarrier \/ (\E s \in Srcs : WkAcquire(s))
-            \/ (\E s \in Srcs : \E o \in Outcomes : HReturn(s, o)) \/ (\E b \in 1..Len(bat) : Deliver(b))
+            \/ (\E s \in Srcs : \E o \in Outcomes : HReturn(s, o)) \/ (\E s \in Srcs : DeliverS(s))
             \/ (\E id \in DOMAIN cbw : CbTimeout(id)) \/ WaitStatusReturn
 FairSpec == Spec /\ WF_vars(Internal)
 
